@@ -240,6 +240,17 @@ func includeLabel(s Source, names ...string) Source {
 	return s
 }
 
+// Include labels used by on(...), but only these that the source could have in the first place:
+// matching on a label that was already removed from the source doesn't bring it back.
+func includeLabelsInUse(s, orig Source, names ...string) Source {
+	for _, name := range names {
+		if orig.CanHaveLabel(name) {
+			s = includeLabel(s, name)
+		}
+	}
+	return s
+}
+
 // Include labels that were not already excluded.
 func maybeIncludeLabel(s Source, names ...string) Source {
 	for _, name := range names {
@@ -760,7 +771,7 @@ func parseBinOps(expr string, n *promParser.BinaryExpr) (src []Source) {
 			ls := s
 			if n.VectorMatching.On {
 				s.FixedLabels = true
-				s = includeLabel(s, n.VectorMatching.MatchingLabels...)
+				s = includeLabelsInUse(s, ls, n.VectorMatching.MatchingLabels...)
 				s = restrictIncludedLabels(s, n.VectorMatching.MatchingLabels)
 				s = restrictGuaranteedLabels(s, n.VectorMatching.MatchingLabels)
 				s = excludeAllLabels(
@@ -822,7 +833,7 @@ func parseBinOps(expr string, n *promParser.BinaryExpr) (src []Source) {
 			// foo * on(instance) group_left(a,b) bar{x="y"}
 			// then only group_left() labels will be included.
 			if n.VectorMatching.On {
-				s = includeLabel(s, n.VectorMatching.MatchingLabels...)
+				s = includeLabelsInUse(s, rs, n.VectorMatching.MatchingLabels...)
 			}
 			if s.Operation == "" {
 				s.Operation = n.VectorMatching.Card.String()
@@ -849,7 +860,7 @@ func parseBinOps(expr string, n *promParser.BinaryExpr) (src []Source) {
 			ls := s
 			s = includeLabel(s, n.VectorMatching.Include...)
 			if n.VectorMatching.On {
-				s = includeLabel(s, n.VectorMatching.MatchingLabels...)
+				s = includeLabelsInUse(s, ls, n.VectorMatching.MatchingLabels...)
 			}
 			if s.Operation == "" {
 				s.Operation = n.VectorMatching.Card.String()
@@ -878,7 +889,7 @@ func parseBinOps(expr string, n *promParser.BinaryExpr) (src []Source) {
 			var rhsConditional bool
 			ls := s
 			if n.VectorMatching.On {
-				s = includeLabel(s, n.VectorMatching.MatchingLabels...)
+				s = includeLabelsInUse(s, ls, n.VectorMatching.MatchingLabels...)
 			}
 			if s.Operation == "" {
 				s.Operation = n.VectorMatching.Card.String()
